@@ -124,3 +124,262 @@ def run_C14(rng, tier):
     return finish("C14", "C14", cases, viols,
                   "combinator over random children, children run stand-alone on the same inputs; non-trivial = at least 3 distinct observations; f64 repeat of half of the groups",
                   {"f64_cases": len(fc)})
+
+# ---------------------------------------------------------------------------------- helpers
+def f64_exact(bits):
+    """f64 bit pattern -> exact Fraction (None if not finite or not representable as n/2^k with k small)"""
+    x = O.f64_of_bits(bits)
+    if x != x or x in (float("inf"), float("-inf")):
+        return None
+    fr = F(x)
+    if fr.denominator.bit_length() > 1000 or fr.numerator.bit_length() > 1000:
+        return None
+    return fr
+
+def replay_case(core_desc, inner_outs, meta, f64=False):
+    ops = []
+    for o in inner_outs:
+        if o is None:
+            ops.append(("l", 0))
+        else:
+            v = ("x%016x" % o) if f64 else o
+            ops.append(("u", 0, v))
+    return Case(core_desc, ops, meta)
+
+def chain_groups(rng, count, names=None, f64=False):
+    """(chain W(A), stand-alone A) pairs; the replay cases are built after running them"""
+    names = names or ALL_UNARY
+    pairs = []
+    for i in range(count):
+        name = names[i % len(names)]
+        pos = name in POSITIVE_ONLY
+        inner = rng.choice(INNERS_POS if pos else INNERS)
+        if inner[0] == "LnReturn":
+            pos = True
+        d = mk_view(rng, name, inner)
+        reg, xs = stream_for(rng, d)
+        if pos:
+            reg, xs = gen_stream(rng, len(xs), positive=True, grid=(1 if is_heavy(d) else 4))
+        meta = {"regime": reg, "view": name, "model": not f64, "mode": "f64" if f64 else "ex"}
+        pairs.append((Case.simple(d, xs, dict(meta, role="chain")), Case.simple(inner, xs, dict(meta, role="inner", view=inner[0])), mk_view_over_echo(d)))
+    return pairs
+
+def mk_view_over_echo(d):
+    """the same wrapper with its view argument replaced by Echo"""
+    kinds = ARITY[d[0]]
+    i = 1 + kinds.index("v")
+    return d[:i] + (E,) + d[i + 1:]
+
+# ---------------------------------------------------------------------------------- C01
+def run_C01(rng, tier):
+    k = scale(tier)
+    pairs = chain_groups(rng, len(ALL_UNARY) * (2 if tier == "quick" else 6))
+    cases = [c for p in pairs for c in p[:2]]
+    # binary combinators: value only when both children have one
+    kids = INNERS + [E, ("Rsi", 3, E), ("Ss", 2, E)]
+    bgroups = []
+    for i in range(16 * k):
+        op = ["Add", "Sub", "Mul", "Div"][i % 4]
+        a, b = rng.choice(kids), rng.choice(INNERS_POS if op == "Div" else kids)
+        d = (op, a, b)
+        reg, xs = stream_for(rng, d)
+        if needs_positive(d) or "LnReturn" in d_views(d):
+            reg, xs = gen_stream(rng, len(xs), positive=True, grid=1 if is_heavy(d) else 4)
+        g = (Case.simple(d, xs, {"regime": reg, "view": op}), Case.simple(a, xs, {"view": a[0]}), Case.simple(b, xs, {"view": b[0]}))
+        bgroups.append(g)
+        cases += g
+    # probe leaves
+    P = lambda k_: ("Probe", k_)
+    trees = [("Add", ("Sma", 2, P(1)), ("Ema", 3, P(2))), ("Sub", P(1), ("Mul", P(2), ("Roc", 2, P(3)))), ("Pfe", 4, ("Sma", 2, P(1)), ("Ema", 2, E)),
+             ("Eft", 3, ("Cumulative", 2, P(1)), E), ("Tanh", ("Gte", F(1, 2), ("Min", 2, P(1)))), ("Div", ("Max", 2, P(1)), ("Const", F(2))),
+             ("Vst", 3, ("Hln", 2, ("Lte", F(3), P(1)))), ("Mul", ("Rsi", 2, ("Cog", 3, P(1))), ("Net", 3, ("Cti", 2, P(2)))),
+             ("Lrsi", 3, ("Laguerre", F(1, 2), ("Alma", 2, P(1)))), ("Add", ("Cyber", 3, ("Welford", 2, P(1))), ("Entropy", 2, ("MyRsi", 2, ("Vsct", 2, P(2))))),
+             ("Sub", ("TrendFlex", 3, P(1)), ("ReFlex", 3, ("Ss", 2, ("Roofing", 2, 1, P(2))))), ("WRolling", ("LnReturn", ("Drawdown", ("WRollingMean", P(1))))), ("Sub", ("Drawdown", P(1)), ("LnReturn", ("Max", 2, P(2))))]
+    pcases = []
+    for tr in trees:
+        reg, xs = gen_stream(rng, 10, positive=True, grid=1 if is_heavy(tr) else 2)
+        pcases.append(Case.simple(tr, xs, {"regime": reg, "view": "probe-tree"}))
+    cases += pcases
+    run_impl(cases)
+    groups, reps = [], []
+    for (ch, inn, core_d) in pairs:
+        r = replay_case(core_d, inn.outs(), {"view": core_d[0], "role": "replay"}) if "E" not in inn.outs() else None
+        if r is not None:
+            groups.append((ch, inn, r))
+            reps.append(r)
+    run_impl(reps)
+    cases += reps
+    viols = O.c01_chain(groups) + O.c01_binary(bgroups) + O.c01_probes(pcases)
+    # f64: bit-identical
+    fpairs = chain_groups(rng, len(ALL_UNARY), f64=True)
+    fc = [c for p in fpairs for c in p[:2]]
+    run_impl(fc, mode="f64")
+    fgroups, freps = [], []
+    for (ch, inn, core_d) in fpairs:
+        if "E" in inn.outs() or "E" in ch.outs():
+            continue
+        r = replay_case(core_d, inn.outs(), {"view": core_d[0], "role": "replay", "model": False, "mode": "f64"}, f64=True)
+        if r is not None:
+            fgroups.append((ch, inn, r))
+            freps.append(r)
+    run_impl(freps, mode="f64")
+    viols += O.c01_chain(fgroups, f64=True)
+    return finish("C01", "C01", cases, viols,
+                  "every unary wrapper over a random inner view with warm-up / non-identity output: chain vs stand-alone inner + replay of the wrapper over Echo (exact at the rational scalar, bit-exact at f64); binary combinators over pairs; descriptor trees with logging Probe leaves",
+                  {"f64_chain_groups": len(fgroups), "chain_groups": len(groups), "probe_trees": len(pcases)})
+
+# ---------------------------------------------------------------------------------- C02
+C02_VIEWS = ["Sma", "Cumulative", "Min", "Max", "Welford", "WelfordMean", "WelfordVar", "Hln", "Roc", "Entropy", "Vst", "Vsct"]
+def run_C02(rng, tier):
+    k = scale(tier)
+    cases = standalone_cases(rng, C02_VIEWS, 130 * k)
+    # deterministic corner cases: zero bases for Roc, flat windows, spike leaving the window
+    for n in (1, 2, 3):
+        cases.append(Case.simple(("Roc", n, E), [0, 0, 1, 2, 0, 3, 0, 0, 5, 6, 7, 8], {"regime": "zero-base", "view": "Roc"}))
+        for v in ("Welford", "Vst", "Vsct", "Hln", "WelfordVar", "WelfordMean"):
+            cases.append(Case.simple((v, n, E), [1, 1000, 3, 3, 3, 3, 3, -2, -2, -2, -2], {"regime": "spike-then-flat", "view": v}))
+    run_impl(cases)
+    viols = O.spec_check("C02", cases, "the definition over the last N values")
+    return finish("C02", "C02", cases, viols, "stand-alone windowed statistic, N in 1..12 weighted to 1,2; batch definition over exactly the last N values evaluated with exact rationals; non-trivial = at least 3 distinct observations")
+
+# ---------------------------------------------------------------------------------- C03
+C03_K = {"Sma": 0, "Cumulative": 0, "Min": 0, "Max": 0, "Welford": 0, "WelfordMean": 0, "WelfordVar": 0, "Vst": 0, "Vsct": 0, "Hln": 0, "Entropy": 0,
+         "Cog": 0, "Cti": 0, "Net": 0, "Roc": 1, "Rsi": 1, "MyRsi": 1, "Alma": "2n", "Pfe": "pfe"}
+def run_C03(rng, tier):
+    k = scale(tier)
+    pairs, cases = [], []
+    names = list(C03_K)
+    for i in range(150 * k):
+        name = names[i % len(names)]
+        if name == "Pfe":
+            n, m = 3 + rng.below(4), 1 + rng.below(3)
+            d = ("Pfe", n, E, ("Sma", m, E))
+            K = n + m - 1
+        else:
+            d = mk_view(rng, name)
+            n = d[1]
+            K = 2 * n if C03_K[name] == "2n" else n + C03_K[name]
+        sl = K + rng.below(5)
+        heavy = is_heavy(d)
+        _, s = gen_stream(rng, sl, grid=1 if heavy else 4)
+        def prefix():
+            L = rng.choice([0, 0, 1, 2, K, 2 * K + 1]) if not heavy else rng.choice([0, 1, 2])
+            r, p = gen_stream(rng, L, grid=1 if heavy else 4)
+            if rng.chance(0.3):
+                p = [x * 100000 for x in p]
+            return p
+        p1, p2 = prefix(), prefix()
+        if p1 == p2:
+            p2 = p2 + [F(777)]
+        c1 = Case.simple(d, p1 + s, {"view": name, "regime": "prefix-suffix"})
+        c2 = Case.simple(d, p2 + s, {"view": name, "regime": "prefix-suffix"})
+        pairs.append((c1, c2, K, sl, None))
+        cases += [c1, c2]
+    run_impl(cases)
+    viols = O.c03(pairs)
+    return finish("C03", "C03", cases, viols, "pairs of histories with arbitrary (empty, short, long, huge-valued) different prefixes and a common suffix of length K..K+4; outputs on the suffix from position K on must be equal (exact rationals)")
+
+# ---------------------------------------------------------------------------------- C04
+def run_C04(rng, tier):
+    k = scale(tier)
+    names = ["Sma", "Ema", "Alma"]
+    singles = standalone_cases(rng, names, 45 * k)
+    for n in (1, 2, 3):
+        singles.append(Case.simple(("Ema", n, E), [0, 0, 0, 8, -8, 0, 4], {"regime": "zeros", "view": "Ema"}))
+        singles.append(Case.simple(("Ema", n, E), [2, -2, 4, 0, 0, 1], {"regime": "zeros", "view": "Ema"}))
+        singles.append(Case.simple(("Sma", n, E), [0, 2, -2, 0, 0, 5], {"regime": "zeros", "view": "Sma"}))
+    mono, aff = [], []
+    for i in range(30 * k):
+        d = mk_view(rng, names[i % 3])
+        reg, xs = stream_for(rng, d, 14 + rng.below(10))
+        j = rng.below(len(xs))
+        ys = list(xs)
+        ys[j] += F(1 + rng.below(20), 4)
+        mono.append((Case.simple(d, xs, {"view": d[0], "regime": reg}), Case.simple(d, ys, {"view": d[0], "regime": "raised"}), j))
+        a, b = F(1 + rng.below(12), 4), F(rng.below(41) - 20, 4)
+        aff.append((Case.simple(d, xs, {"view": d[0], "regime": reg}), Case.simple(d, [a * x + b for x in xs], {"view": d[0], "regime": "affine"}), (a, b)))
+    cases = singles + [c for p in mono for c in p[:2]] + [c for p in aff for c in p[:2]]
+    run_impl(cases)
+    viols = O.c04_single(singles + [p[0] for p in mono])
+    viols += O.spec_check("C04", [c for c in singles if c.desc[0] in ("Ema", "Alma")], "the defining recursion / Gaussian-kernel weighted mean")
+    viols += O.pointwise_rel("c04-monotone", "raising an input lowered an output", mono, lambda a, b, prm, t, c: b >= a)
+    viols += O.pointwise_rel("c04-affine", "does not commute with x -> a*x+b", aff, lambda a, b, prm, t, c: b == prm[0] * a + prm[1])
+    return finish("C04", "C04", cases, viols, "Sma/Ema/Alma: hull and constant reproduction on single runs (incl. zeros and sign changes), paired runs for monotonicity (one input raised) and x -> a*x+b with rational a>0, b; Ema recursion and Alma kernel as batch specs; exact rationals")
+
+# ---------------------------------------------------------------------------------- C05
+def run_C05(rng, tier):
+    k = scale(tier)
+    cases = standalone_cases(rng, ["Rsi", "MyRsi"], 90 * k)
+    neg = []
+    for i in range(20 * k):
+        d = mk_view(rng, ["Rsi", "MyRsi"][i % 2])
+        reg, xs = stream_for(rng, d, 20)
+        neg.append((Case.simple(d, xs, {"view": d[0], "regime": reg}), Case.simple(d, [-x for x in xs], {"view": d[0], "regime": "negated"}), None))
+    for n in (1, 2, 3, 4):
+        for v in ("Rsi", "MyRsi"):
+            cases.append(Case.simple((v, n, E), [1, 2, 3, 4, 5, 6, 7, 7, 7, 7, 7, 7, 6, 5, 4, 3, 2, 1], {"regime": "rise-flat-fall", "view": v}))
+            cases.append(Case.simple((v, n, E), [1, 1000, 1, 1, 1, 1, 1, 1, 2], {"regime": "spike-then-flat", "view": v}))
+    cases += [c for p in neg for c in p[:2]]
+    run_impl(cases)
+    viols = O.spec_check("C05", cases, "gains/losses over the N most recent changes")
+    def negrel(a, b, prm, t, c):
+        n = c.desc[1]
+        xs = c.inputs()
+        w = xs[max(0, t - n): t + 1]
+        if len(set(w)) == 1:
+            return None
+        return b == (100 - a if c.desc[0] == "Rsi" else -a)
+    viols += O.pointwise_rel("c05-negation", "negating the input must map Rsi to 100-Rsi / MyRSI to -MyRSI", neg, negrel)
+    return finish("C05", "C05", cases, viols, "Rsi / MyRSI stand-alone, N in 1..12, all regimes incl. ties, monotone runs, spikes leaving the window, flat after volatile; closed form from G and L; negation pairs")
+
+# ---------------------------------------------------------------------------------- C06
+def run_C06(rng, tier):
+    k = scale(tier)
+    cases = []
+    for i in range(100 * k):
+        name = ["Cti", "Net", "Cog"][i % 3]
+        d = (name, 3 + rng.below(8), E)
+        reg, xs = stream_for(rng, d)
+        cases.append(Case.simple(d, xs, {"regime": reg, "view": name}))
+    mono = []
+    for n in (3, 4, 5, 7):
+        up = [F(1), F(2), F(4), F(8), F(9), F(15), F(16), F(30), F(31), F(33)]
+        aff = [F(3) + F(5, 4) * i for i in range(12)]
+        for name in ("Cti", "Net"):
+            mono.append((Case.simple((name, n, E), up, {"regime": "strictly-increasing", "view": name}), +1))
+            mono.append((Case.simple((name, n, E), [-x for x in up], {"regime": "strictly-decreasing", "view": name}), -1))
+            mono.append((Case.simple((name, n, E), aff, {"regime": "affine-up", "view": name}), +1))
+            mono.append((Case.simple((name, n, E), [-x for x in aff], {"regime": "affine-down", "view": name}), -1))
+        cases.append(Case.simple(("Cog", n, E), [F(5, 2)] * 10, {"regime": "const", "view": "Cog"}))
+    negs = []
+    for i in range(20 * k):
+        name = ["Cti", "Net"][i % 2]
+        d = (name, 3 + rng.below(6), E)
+        reg, xs = stream_for(rng, d, 18)
+        negs.append((Case.simple(d, xs, {"view": name, "regime": reg}), Case.simple(d, [-x for x in xs], {"view": name, "regime": "negated"}), None))
+    order = []
+    for i in range(10 * k):
+        d = ("Net", 3 + rng.below(6), E)
+        reg, xs = stream_for(rng, d, 18)
+        order.append((Case.simple(d, xs, {"view": "Net", "regime": reg}), Case.simple(d, [x * x * x + 2 * x for x in xs], {"view": "Net", "regime": "monotone-map"}), None))
+    cases += [m[0] for m in mono] + [c for p in negs for c in p[:2]] + [c for p in order for c in p[:2]]
+    run_impl(cases)
+    viols = O.spec_check("C06", cases, "the correlation definition on the window")
+    for (c, sign) in mono:
+        n = c.desc[1]
+        for t, g in enumerate(c.outs()):
+            if t + 1 >= n and g != sign:
+                key = "W1-cti-monotone-nonaffine" if (c.desc[0] == "Cti" and c.meta["regime"].startswith("strictly")) else "c06-monotone-" + c.desc[0].lower()
+                viols.append(O.viol(key, "%s on a %s window reports %s, not %+d (step %d)" % (d_sexpr(c.desc), c.meta["regime"], approx_s(g), sign, t + 1), [c], step=t + 1))
+                break
+    full = lambda c, t: t + 1 >= c.desc[1]
+    viols += O.pointwise_rel("c06-negation", "negating the input must flip the sign", negs, lambda a, b, prm, t, c: (b == -a) if full(c, t) else None)
+    viols += O.pointwise_rel("c06-net-order", "NET must depend on the order of the values only", order, lambda a, b, prm, t, c: b == a)
+    for c in cases:
+        if c.desc[0] == "Cog" and c.meta.get("regime") == "const":
+            if any(g != 0 for g in c.outs()):
+                viols.append(O.viol("c06-cog-const", "CoG on a constant non-zero window is not 0: %s" % d_sexpr(c.desc), [c]))
+    return finish("C06", "C06", cases, viols, "CTI/NET/CoG, N in 3..10: batch Pearson / Kendall / CoG formula on full windows; strictly monotone and affine windows; negation pairs; strictly increasing map for NET")
+
+def approx_s(g):
+    return "%s (~%.6g)" % (g, float(g)) if isinstance(g, F) else str(g)
